@@ -254,6 +254,16 @@ class Plan:
             ("delete_host", 5), ("delete_nth", 4 if L else 0), ("delete", 2), ("uniq", 1 if self.allow_uniq and len(L) > 1 else 0),
             ("iter_new", 4 if len(live) < self.maxit else 0), ("iter_next", 12 if usable else 0),
             ("iter_remove", 7 if cur else 0), ("iter_reset", 1 if live else 0), ("iter_destroy", 1 if live and len(self.ops) > 6 else 0)])
+        if k == "push" and L and r.chance(1, 4) and numeric_tail(L[-1]) and len(L[-1]) < 40:
+            # continue the last name: the new hosts coalesce into the tail range under whatever iterator stands there
+            t = numeric_tail(L[-1])
+            stem, n0 = L[-1][:len(L[-1]) - len(t)], int(t)
+            cntp = r.range(1, 3)
+            names = [stem + hlgen.fmtw(len(t), n0 + 1 + i) for i in range(cntp)]
+            if all(d02(n) for n in names):
+                text = names[0] if cntp == 1 else stem + b"[" + hlgen.fmtw(len(t), n0 + 1) + b"-" + hlgen.fmtw(len(t), n0 + cntp) + b"]"
+                self.emit("push", hexs(text), names)
+                return
         if k == "push":
             text, names = gen_expr(r, self.stems)
             self.used_names += names[:3]
@@ -621,6 +631,11 @@ def directed():
     # pop under iterators
     out.append(("pop-then-push-under-iterator", [P(b"a1,b2", [b"a1", b"b2"]), I, N(0), N(0), ("pop", None, None), P(b"c3", [b"c3"]), N(0), N(0)]))
     out.append(("pop-inside-range-then-push", [P(b"a[1-3]", names(b"a", 1, 3)), I, N(0), N(0), N(0), ("pop", None, None), P(b"a3", [b"a3"]), N(0), N(0)]))
+    # the last range is removed under the iterator, then a push coalesces into the new last range
+    out.append(("remove-last-range-then-push-coalesced", [P(b"a[1-3],b5", names(b"a", 1, 3) + [b"b5"]), I, N(0), N(0), N(0), N(0),
+                                                            ("iter_remove", "0", 0), P(b"a4", [b"a4"]), N(0), N(0)]))
+    out.append(("delete-last-range-under-two-iterators", [P(b"a[1-2],b5", names(b"a", 1, 2) + [b"b5"]), I, I, N(0), N(0), N(0), N(1), N(1),
+                                                            ("delete_host", hexs(b"b5"), b"b5"), P(b"a[3-4]", names(b"a", 3, 4)), N(0), N(1), N(1), N(0)]))
     # fifteen ranges in an array of sixteen slots: an exhausted iterator stands at index 15; a split makes it 16 = the array size
     fourteen = [b"h%c" % (97 + i) for i in range(14)]
     out.append(("insert-at-array-size", [P(b",".join(fourteen) + b",a[1-5]", fourteen + names(b"a", 1, 5)), I] + [N(0)] * 20 +
